@@ -198,12 +198,15 @@ def apply_op(state, op, out):
   else:
     raise ValueError(name)
   out.label("op:" + name)
-  if name == "train_step" and not all(
+  if (name == "train_step" or getattr(state, "overflowed", False)) and not all(
       np.all(np.isfinite(v.numpy())) and np.max(np.abs(v.numpy())) <= 1e6
       for v in layer.variables):
-    # weights beyond 1e6 (or non-finite): products over dims overflow float32;
-    # the statement is about finite arithmetic, so the state is not judged.
+    # weights beyond 1e6 (or non-finite) after an optimizer step: products over
+    # dims overflow float32; the statement is about finite arithmetic, so the
+    # state is not judged - neither now nor after later operations (finalize,
+    # constraints) as long as the weights stay beyond 1e6.
     state.dirty_kernel = state.dirty_scale = True
+    state.overflowed = True
     out.label("not-judged:weights-beyond-1e6")
     return
   if name.startswith("assign"):
